@@ -9,7 +9,7 @@ import math
 DEG = {
     '1': ([1], None), '0..1': ([0, 1], None), '1..2': ([1, 2], None), '0,2': ([0, 2], None), '2': ([2], None),
     '0..*': (None, 0), '1..*': (None, 1), '0..2': ([0, 1, 2], None), '1,2': ([1, 2], None), '0': ([0], None),
-    '2..*': (None, 2), '1,3': ([1, 3], None),
+    '2..*': (None, 2), '1,3': ([1, 3], None), '3': ([3], None),
 }
 
 
